@@ -211,6 +211,10 @@ func (p *statsProcessor) processGroupByRequest(inputIQR *iqr.IQR) (*iqr.IQR, err
 			cValue, err := record.ReadColumn(cname)
 			if err != nil {
 				p.errorData.readColumns[cname] = err
+			}
+			if err != nil || cValue.Dtype == sutils.SS_INVALID {
+				// No value for this record: the same key whether the column is backfilled for the
+				// record or absent from its block or segment (an unset value was keyed as "<nil>").
 				cValue = &sutils.CValueEnclosure{CVal: nil, Dtype: sutils.SS_DT_BACKFILL}
 			}
 			p.bucketKeyWorkingBuf, bucketKeyBufIdx = cValue.WriteToBytesWithType(p.bucketKeyWorkingBuf, bucketKeyBufIdx)
